@@ -45,6 +45,9 @@ def build_args(ex, k, f):
                 ls = [z3.If(b, z3.BitVecVal(mask(w), w), z3.BitVecVal(0, w)) for b in bs]
                 args.append(ex.from_bits(pty, concat_le([(x, w) for x in ls])))
             desc.append(dict(kind='m', ty=ty, bools=bs, name=nm))
+        elif kind == 'b':
+            sym = z3.Bool(nm)
+            args.append(sym); desc.append(dict(kind='b', sym=sym, name=nm))
         elif kind in ('s', 'z'):
             sym = z3.BitVec(nm, pty.n)
             args.append(sym); desc.append(dict(kind=kind, sym=sym, name=nm, width=pty.n))
@@ -266,13 +269,24 @@ class Decider:
         s.last_key = key
         t0 = time.time()
         sol = z3.Solver()
-        sol.set('timeout', int(s.timeout_s * 1000))
         sol.add(fml)
         raw = z3.Solver(); raw.add(*(assumptions + [neg]))
+        # portfolio order: z3 briefly; pure bit-vector queries then go to cvc5 (bit-blasting and bv-as-int in parallel: multiplier /
+        # divider equivalences that z3 does not finish are closed there in well under a second); then z3 with the full budget; then cvc5
+        short = min(s.timeout_s, 8)
+        sol.set('timeout', int(short * 1000))
         r = sol.check()
-        dt = time.time() - t0; s.solver_s += dt
         res = None
-        if r == z3.unsat: res = ('unsat', None)
+        tried_cvc5 = False
+        if r == z3.unknown and s.use_cvc5 and s.timeout_s > short and not has_fp(fml):
+            tried_cvc5 = True
+            rr = cvc5_check(raw, s.timeout_s); s.cvc5_used += 1
+            if rr == 'unsat': res = ('unsat', None)
+        if res is None and r == z3.unknown and s.timeout_s > short:
+            sol.set('timeout', int(s.timeout_s * 1000))
+            r = sol.check()
+        if res is not None: pass
+        elif r == z3.unsat: res = ('unsat', None)
         elif r == z3.sat:
             if len(assumptions) != len(full):
                 # complete the model over the assumptions that were sliced away (needed for a faithful native replay)
@@ -282,22 +296,35 @@ class Decider:
             else:
                 res = ('sat', sol.model())
         else:
-            if s.use_cvc5:
+            if s.use_cvc5 and not tried_cvc5:
                 rr = cvc5_check(raw, s.timeout_s)
                 s.cvc5_used += 1
                 if rr == 'unsat': res = ('unsat', None)
                 elif rr == 'sat':
-                    # get a model from z3 with more time, seeded by nothing: fall back to a longer z3 run
+                    # cvc5 says sat: ask z3 for the model with more time (models are always replayed natively before being believed)
                     sol.set('timeout', int(s.timeout_s * 3000))
                     r2 = sol.check()
                     res = ('sat', sol.model()) if r2 == z3.sat else ('unknown', None)
             if res is None: res = ('unknown', None)
+        dt = time.time() - t0; s.solver_s += dt
         s.by_search += 1
         if len(s.samples) < 3 and res[0] == 'unsat':
             txt = sol.sexpr()
             s.samples.append({'label': label, 'smt2_head': txt[:600], 'result': res[0], 'seconds': round(dt, 3)})
         if key is not None: s.cache[key] = res
         return res
+
+
+def has_fp(e):
+    seen = set(); st = [e]
+    while st:
+        x = st.pop()
+        i = x.get_id()
+        if i in seen: continue
+        seen.add(i)
+        if z3.is_fp(x) or z3.is_fprm(x): return True
+        st.extend(x.children())
+    return False
 
 
 def cvc5_check(sol, timeout_s):
@@ -343,6 +370,8 @@ def model_inputs(model, desc, ex=None):
             out[d['name']] = [model.eval(x, model_completion=True).as_long() for x in d['lanes']]
         elif d['kind'] == 'm':
             out[d['name']] = [bool(z3.is_true(model.eval(b, model_completion=True))) for b in d['bools']]
+        elif d['kind'] == 'b':
+            out[d['name']] = bool(z3.is_true(model.eval(d['sym'], model_completion=True)))
         elif d['kind'] in ('s', 'z', 'T'):
             out[d['name']] = model.eval(d['sym'], model_completion=True).as_long()
         elif d['kind'] == 'ptr':
